@@ -11,6 +11,97 @@ META = {
 }
 
 
+SITES = [
+    # (codemod id, header lines, one single-line candidate site, footer)
+    ("pixee:python/use-generator", "", "x{n} = sum([i for i in range({n})])", ""),
+    ("pixee:python/fix-assert-tuple", "", "assert ({n}, 'msg')", ""),
+    ("pixee:python/subprocess-shell-false", "import subprocess\n", "subprocess.run(cmd{n}, shell=True)", ""),
+    ("pixee:python/harden-pickle-load", "import pickle\n", "pickle.load(f{n})", ""),
+    ("pixee:python/https-connection", "import urllib3\n", "urllib3.HTTPConnectionPool('h{n}')", ""),
+    ("pixee:python/unused-imports", "from os.path import (\n", "    name{n},", ")\nimport sys\nprint(sys.argv)\n"),
+]
+
+
+def run_line_filters(tier="quick", seed=0):
+    """BOUNDED stand-in: the property's own oracle on detector-less codemods through the real CLI - a file with three single-line candidate
+    sites, every site excluded / included in turn and in pairs (`path:line` relative to the target): a site is rewritten iff it is
+    permitted, and the change entries name exactly the rewritten site lines."""
+    import contextlib
+    import difflib
+    import io
+    import json
+    import logging
+    import os
+    import shutil
+    import tempfile
+    from codemodder.codemodder import run
+    base = tempfile.mkdtemp(prefix="pyvc_c13_")
+    evals, bad = 0, None
+    cwd = os.getcwd()
+    try:
+        os.chdir(base)
+        for cid, header, site, footer in SITES:
+            unused = cid.endswith("unused-imports")
+            names = ["basename", "dirname", "join"]
+            body, lines_of_sites = [], []
+            text = header
+            for n in (1, 2, 3):
+                if not unused:
+                    text += f"y{n} = {n}\n"
+                lines_of_sites.append(text.count("\n") + 1)
+                text += (site.replace("name{n}", names[n - 1]) if unused else site.format(n=n)) + "\n"
+            text += footer
+            subsets = [("none", None, None), ("exclude", [lines_of_sites[0]], None), ("exclude", lines_of_sites[1:], None),
+                       ("include", None, [lines_of_sites[1]]), ("include", None, [lines_of_sites[0], lines_of_sites[2]])]
+            if tier != "thorough":
+                subsets = subsets[:4]
+            for mode, exc, inc in subsets:
+                root = os.path.join(base, f"p{evals}")
+                os.makedirs(root)
+                open(os.path.join(root, "f.py"), "w").write(text)
+                out = os.path.join(base, "o.codetf")
+                args = [root, "--output", out, "--codemod-include", cid]
+                if exc:
+                    args += ["--path-exclude", ",".join(f"f.py:{l}" for l in exc)]
+                if inc:
+                    args += ["--path-include", ",".join(f"f.py:{l}" for l in inc)]
+                rootlog = logging.getLogger()
+                for h in list(rootlog.handlers):
+                    rootlog.removeHandler(h)
+                with contextlib.redirect_stdout(io.StringIO()), contextlib.redirect_stderr(io.StringIO()):
+                    rc = run(args)
+                evals += 1
+                after = open(os.path.join(root, "f.py")).read()
+                norm = lambda ls: [l.strip().rstrip(",)") for l in ls]      # a kept name may lose its trailing comma: not an edit of that site
+                sm = difflib.SequenceMatcher(None, norm(text.splitlines()), norm(after.splitlines()), autojunk=False)
+                touched = set()
+                for tag, i1, i2, j1, j2 in sm.get_opcodes():
+                    if tag in ("replace", "delete"):
+                        touched.update(range(i1 + 1, i2 + 1))
+                permitted = set(lines_of_sites) if mode == "none" else (set(lines_of_sites) - set(exc or [])) if exc else set(inc or [])
+                rep = json.load(open(out)) if os.path.exists(out) else {"results": []}
+                change_lines = sorted(c["lineNumber"] for r in rep["results"] for cs in r["changeset"] if cs["path"] == "f.py" for c in cs["changes"])
+                rewritten = sorted(touched & set(lines_of_sites))
+                w = None
+                if rc != 0:
+                    w = {"clause": "the run completes", "status": rc}
+                elif rewritten != sorted(permitted):
+                    w = {"clause": "site lines rewritten == permitted site lines", "rewritten": rewritten, "permitted": sorted(permitted)}
+                elif sorted(set(change_lines) & set(lines_of_sites)) != rewritten or any(l in lines_of_sites and l not in permitted for l in change_lines):
+                    w = {"clause": "the change entries name exactly the rewritten site lines", "change lines": change_lines, "rewritten": rewritten}
+                if w is not None and bad is None:
+                    bad = dict(w, codemod=cid, mode=mode, exclude=exc, include=inc, sites=lines_of_sites, program=text)
+    finally:
+        os.chdir(cwd)
+        shutil.rmtree(base, ignore_errors=True)
+    return {"kind": "bounded", "id": "bounded:line includes / excludes through the real CLI (three single-line sites per codemod)", "status": "refuted" if bad else "discharged",
+            "bound": f"{len(SITES)} detector-less codemods x 4-5 exclude/include subsets of three single-line sites (incl. names on their own line of a multi-line import)",
+            "evaluations": evals, "witness": bad, "func": "core_codemods (per-codemod use of the selection filters)",
+            "reason": "" if not bad else f"clause '{bad.get('clause')}' fails for {bad.get('codemod')} ({bad.get('mode')})",
+            "replay": {"reproduced": True, "detail": json.dumps(bad, default=str)[:2000]} if bad else None,
+            "clause": "lines rewritten == permitted sites and {change.lineNumber} (on site lines) == lines rewritten"}
+
+
 def extra_checks(tier="quick", seed=0):
     from contracts.props.C06 import guard_obligations
-    return guard_obligations("line")
+    return guard_obligations("line") + [run_line_filters(tier, seed)]
